@@ -46,7 +46,7 @@ def np_isnan(ex, st, args, kw, node):
     if c is not None:
         k = fresh('k', I)
         # boolean array: represented as 0/1 array whose "truth" is the nan flag
-        return st.new_ref(ArrC(z3.Lambda([k], z3.If(c.nan_at(k), z3.RealVal(1), z3.RealVal(0))), c.n, None), 'isnan')
+        return st.new_ref(ArrC(z3.Lambda([k], z3.If(c.nan_at(k), z3.RealVal(1), z3.RealVal(0))), c.n, None, kind='bool'), 'isnan')
     x = as_real(v)
     return x.nanz()
 
@@ -118,6 +118,22 @@ def np_put(ex, st, args, kw, node):
     return None
 
 
+def np_arange(ex, st, args, kw, node):
+    """np.arange(lo, hi[, step]) for integer arguments with step >= 1: element k = lo + k*step, length ceil((hi-lo)/step)"""
+    if len(args) == 1:
+        lo, hi, step = z3.IntVal(0), to_z3(args[0]), z3.IntVal(1)
+    else:
+        lo, hi = to_z3(args[0]), to_z3(args[1])
+        step = to_z3(args[2]) if len(args) > 2 else z3.IntVal(1)
+    if not all(z3.is_int(x) for x in (lo, hi, step)):
+        raise Unsupported('np.arange with non-integer arguments')
+    n = fresh('arange.len', I)
+    st.assume(z3.And(n >= 0, z3.Implies(hi <= lo, n == 0)))
+    st.assume(z3.Implies(z3.And(hi > lo, step >= 1), z3.And(lo + (n - 1) * step < hi, lo + n * step >= hi)))
+    k = fresh('k', I)
+    return st.new_ref(ArrC(z3.Lambda([k], z3.ToReal(lo + k * step)), n, None, kind='int'), 'arange')
+
+
 def np_zeros(ex, st, args, kw, node):
     n = args[0]
     return st.new_ref(ArrC(z3.K(I, z3.RealVal(0)), to_z3(n) if not isinstance(n, int) else z3.IntVal(n), None), 'zeros')
@@ -144,7 +160,7 @@ def _elementwise_cmp(op):
         x = ca.at(k) if ca is not None else as_real(a)
         y = cb.at(k) if cb is not None else as_real(b)
         c = ex.compare(op, x, y, st)
-        return st.new_ref(ArrC(z3.Lambda([k], z3.If(zb(c), z3.RealVal(1), z3.RealVal(0))), n, None), 'cmp')
+        return st.new_ref(ArrC(z3.Lambda([k], z3.If(zb(c), z3.RealVal(1), z3.RealVal(0))), n, None, kind='bool'), 'cmp')
     return f
 
 
@@ -163,7 +179,7 @@ def _logical(kind):
             else:
                 ts.append(zb(ex.truth(a, st)))
         r = z3.And(*ts) if kind == 'and' else z3.Or(*ts) if kind == 'or' else z3.Not(ts[0])
-        return st.new_ref(ArrC(z3.Lambda([k], z3.If(r, z3.RealVal(1), z3.RealVal(0))), n, None), 'logical')
+        return st.new_ref(ArrC(z3.Lambda([k], z3.If(r, z3.RealVal(1), z3.RealVal(0))), n, None, kind='bool'), 'logical')
     return f
 
 
@@ -216,7 +232,7 @@ def value_any(ex, st, args, kw, node):
 NUMPY = {
     'np.abs': np_abs, 'np.absolute': np_abs, 'np.isnan': np_isnan, 'np.argmax': np_argmax, 'np.max': np_max,
     'np.array': np_array, 'np.ravel': np_ravel, 'np.put': np_put, 'np.zeros': np_zeros, 'np.zeros_like': np_zeros_like,
-    'np.ones_like': np_ones_like, 'np.any': np_any, 'np.all': np_all,
+    'np.ones_like': np_ones_like, 'np.any': np_any, 'np.all': np_all, 'np.arange': np_arange,
     'np.less': _elementwise_cmp(ast.Lt()), 'np.less_equal': _elementwise_cmp(ast.LtE()),
     'np.greater': _elementwise_cmp(ast.Gt()), 'np.greater_equal': _elementwise_cmp(ast.GtE()),
     'np.equal': _elementwise_cmp(ast.Eq()), 'np.not_equal': _elementwise_cmp(ast.NotEq()),
